@@ -21,7 +21,10 @@ LEVEL = ('decides: every unsigned difference in the MaxSAT bound encoder and lin
          'minimisers, conflict-analysis tables, nogood deletion, decision read-back, no-learning '
          'resolver, constraint builders, reified reasons — wherever they are not already registered '
          'here under another id. The time limit is converted with the unit the option documents (W9). '
-         'Does not decide the correctness of the two encodings')
+         'The linear search tightens by exactly one (W10); only the code→literal translation drops the'
+         ' sign of a DIMACS code (W11); right-hand sides handed to the encoders are k or k − constant '
+         'term on every transition (W12); every hard clause reaches the solver (W13 = C14-G8). Does '
+         'not decide the correctness of the two encodings')
 TECHNIQUE = "static analysis: guarded-subtraction, dominance, symbolic table recovery and loop-nesting rules over rustc MIR"
 
 # unsigned differences with an arithmetic (not comparison-shaped) safety argument
